@@ -12,7 +12,10 @@ use std::sync::atomic::{AtomicBool, AtomicU64, Ordering};
 use std::sync::{Arc, Mutex};
 use std::time::{Duration, Instant};
 
-pub const VERIF_DIR: &str = "/verif";
+/// Root of the verification tree: `$VERIF_HOME` (exported by ./check), else /verif.
+pub fn verif_dir() -> String {
+    std::env::var("VERIF_HOME").ok().filter(|s| !s.is_empty()).unwrap_or_else(|| "/verif".to_string())
+}
 
 #[derive(Clone, Debug)]
 pub struct Batch {
@@ -30,7 +33,7 @@ pub struct KnownEntry {
 }
 
 pub fn load_known() -> Vec<KnownEntry> {
-    let path = format!("{VERIF_DIR}/KNOWN_FINDINGS.txt");
+    let path = format!("{}/KNOWN_FINDINGS.txt", verif_dir());
     let mut v = Vec::new();
     let Ok(s) = std::fs::read_to_string(&path) else {
         return v;
@@ -226,7 +229,7 @@ struct Slot {
 /// The binary that executes a world: W6 lives in the shuttle build (other cfg flags, own target dir).
 pub fn exe_for(world: &str) -> std::path::PathBuf {
     if world == "W6" {
-        return std::path::PathBuf::from(format!("{VERIF_DIR}/sim/target-shuttle/sim/riosim"));
+        return std::path::PathBuf::from(format!("{}/sim/target-shuttle/sim/riosim", verif_dir()));
     }
     std::env::current_exe().unwrap()
 }
@@ -642,12 +645,13 @@ pub fn triage<W: World>(
                 components: comps.clone(),
             };
             let path = format!(
-                "{VERIF_DIR}/replays/{prop}-{}-{}-s{seed}-r{i}-{}.json",
+                "{}/replays/{prop}-{}-{}-s{seed}-r{i}-{}.json",
+                verif_dir(),
                 W::NAME,
                 b.mode,
                 sanitize(&f.class())
             );
-            let _ = std::fs::create_dir_all(format!("{VERIF_DIR}/replays"));
+            let _ = std::fs::create_dir_all(format!("{}/replays", verif_dir()));
             if std::fs::write(&path, serde_json::to_string_pretty(&r).unwrap()).is_err() {
                 harness_errors.push(format!("cannot write {path}"));
                 continue;
@@ -722,8 +726,8 @@ pub fn triage<W: World>(
             case: serde_json::to_value(&case).unwrap(),
             components: comps.clone(),
         };
-        let path = format!("{VERIF_DIR}/replays/{prop}-{}-{}-s{seed}-r{i}-{clause}.json", W::NAME, b.mode);
-        let _ = std::fs::create_dir_all(format!("{VERIF_DIR}/replays"));
+        let path = format!("{}/replays/{prop}-{}-{}-s{seed}-r{i}-{clause}.json", verif_dir(), W::NAME, b.mode);
+        let _ = std::fs::create_dir_all(format!("{}/replays", verif_dir()));
         if std::fs::write(&path, serde_json::to_string_pretty(&r).unwrap()).is_err() {
             harness_errors.push(format!("cannot write {path}"));
             continue;
@@ -855,7 +859,7 @@ pub fn write_evidence(rep: &PropReport) -> Result<(), String> {
         "wall_s": (rep.wall_s * 100.0).round() / 100.0,
         "violations": rep.violations.len(),
     });
-    let dir = format!("{VERIF_DIR}/evidence");
+    let dir = format!("{}/evidence", verif_dir());
     std::fs::create_dir_all(&dir).map_err(|e| e.to_string())?;
     let path = format!("{dir}/{}.json", rep.prop);
     let tmp = format!("{path}.tmp");
